@@ -86,7 +86,7 @@ type EvIn struct {
 
 type In struct {
 	Kind     string      `json:"kind"` // lock | free
-	Mode     string      `json:"mode"` // LF (downloader finalized type = finalized) | LS (= safe: every block is tracked)
+	Mode     string      `json:"mode"` // LF (downloader finalized type = finalized) | LS (= safe: every block is tracked) | SF (block finality safe, finalized type finalized)
 	Chunk    uint64      `json:"chunk"`
 	Buf      int         `json:"buf"`
 	Addrs    []int       `json:"addrs"`
@@ -237,6 +237,7 @@ type dlClient struct {
 	w                                *world
 	free                             bool
 	finTag                           int64
+	safeIsHead                       bool
 
 	mu       gosync.Mutex
 	waiters  map[*waiter]struct{}
@@ -270,6 +271,9 @@ func (c *dlClient) tagAnswer(number *big.Int) (*types.Header, error) {
 	n := c.w.cur.Head
 	if number.Int64() != int64(aggkittypes.Latest) {
 		n = c.w.cur.Fin
+	}
+	if c.safeIsHead && number.Int64() == int64(aggkittypes.Safe) { // mode SF: the syncer follows the safe block, which is the scripted head
+		n = c.w.cur.Head
 	}
 	return headerOf(n, c.w.block(n).H), nil
 }
@@ -662,11 +666,16 @@ func (r *runner) start() error {
 	if r.in.Mode == "LS" {
 		finType = aggkittypes.SafeBlock
 	}
+	blockFinality := aggkittypes.LatestBlock
+	if r.in.Mode == "SF" { // the syncer follows the SAFE block (the scripted head) with finalized type Finalized: the constructor clamps the finalized type to Safe, so every block is tracked as in LS
+		blockFinality = aggkittypes.SafeBlock
+		r.dlc.safeIsHead = true
+	}
 	wait := time.Millisecond
 	if r.free {
 		wait = 2 * time.Millisecond
 	}
-	d, err := aggsync.NewEVMDownloader(subscriberID, r.dlc, r.in.Chunk, aggkittypes.LatestBlock, wait, appender, addrs, rh, finType)
+	d, err := aggsync.NewEVMDownloader(subscriberID, r.dlc, r.in.Chunk, blockFinality, wait, appender, addrs, rh, finType)
 	if err != nil {
 		cancel()
 		return r.fail("NewEVMDownloader: %v", err)
@@ -1546,6 +1555,14 @@ func generate(f *hlib.Flags) []In {
 	}
 	for i := 0; i < nfree; i++ {
 		ins = append(ins, genFree(rng))
+	}
+	// free-running histories of a syncer that follows the SAFE block with the finalized type Finalized (mode SF): reorgs between the
+	// finalized block and the head must still be noticed. A separate random stream: the cases above are what they were.
+	rsf := hlib.NewRng(f.Seed ^ 0xc065f)
+	for i := 0; i < 3+nfree/4; i++ {
+		in := genFree(rsf)
+		in.Mode = "SF"
+		ins = append(ins, in)
 	}
 	return ins
 }
